@@ -60,6 +60,10 @@ class C01(ProgProp):
                     yield {"k": "prog", "v": v, "src": small, "trail": "", "pypy": False, "down": i, "shift": shift}
         for v in sorted(PYPY_MAGIC):
             yield {"k": "prog", "v": v, "src": small, "trail": "4e", "pypy": True, "down": 0, "shift": 0}
+        # string constants beyond 1 MiB (readers switch to chunked reads there), of a length that is no multiple of 1 MiB
+        big = "x = '%s'\ny = b'%s'\ndef f():\n    return '%s'\n" % ("a" * 1500000, "b" * 1100000, "c" * 1048577)
+        for v in ("2.7", "3.8", "3.11", "3.13"):
+            yield {"k": "prog", "v": v, "src": big if v != "2.7" else big.replace("b'", "'"), "trail": "", "pypy": False, "down": 2, "shift": 0}
         for rel in pd.corpus_files():
             d = rel.split("/")[0].replace("bytecode_", "")
             if d in COUSIN:
